@@ -1,0 +1,9 @@
+//go:build verif
+
+package js
+
+// VerifState returns the lexer's bracket level and the number of open template literals (read-only, verif
+// build tag only).
+func (l *Lexer) VerifState() (level, templates int) {
+	return l.level, len(l.templateLevels)
+}
